@@ -142,7 +142,9 @@ static void
 focus(struct initparser *p)
 {
 	struct type *t;
+	unsigned long long off;
 
+	off = 0;
 	switch (p->sub->type->kind) {
 	case TYPEARRAY:
 		t = p->sub->type->base;
@@ -158,12 +160,14 @@ focus(struct initparser *p)
 		if (!p->sub->u.mem)
 			error(&tok.loc, "cannot initialize members of a type that has none");
 		t = p->sub->u.mem->type;
+		/* not zero when unnamed bit-fields come first */
+		off = p->sub->u.mem->offset;
 		break;
 	default:
 		fatal("internal error: init cursor has unexpected type");
 		return;  /* unreachable */
 	}
-	subobj(p, t, 0);
+	subobj(p, t, off);
 }
 
 static void
